@@ -1,8 +1,13 @@
 def warm(tier, seed):
-    """Fill the trace cache for every property module that has an analysis."""
+    """Fill the trace cache: every (environment, stage) analysis in parallel, then the generic property modules."""
     import importlib
     import pkgutil
-    from harness import props
+    from harness import envkit, props
+    try:
+        r = envkit.collect(None, tier, seed, use_cache=True)
+        print("warmed all environment stages (%d crashed)" % len(r.failures))
+    except Exception as e:
+        print("warm of environment stages failed", repr(e)[:300])
     for m in sorted(pkgutil.iter_modules(props.__path__), key=lambda m: m.name):
         mod = importlib.import_module("harness.props." + m.name)
         if hasattr(mod, "analyze"):
